@@ -6,7 +6,7 @@
 import * as X from '../expr.mjs'
 import * as M from '../tmodel.mjs'
 import { Env, Renderer, refResolve } from '../ref.mjs'
-import { compileMany, instantiate, allDiags, LEVEL } from '../kit.mjs'
+import { compileMany, instantiate, allDiags, LEVEL, withWarnings } from '../kit.mjs'
 import { Rng } from '../prng.mjs'
 
 export const rule = 'distinct = shape of the bound expression x binding kind x nesting of the enclosing wx:for lists; non-trivial = a path was emitted, or a path was correctly withheld from a non-assignable expression'
@@ -31,10 +31,16 @@ function mkData() {
     map: { p: mkItem('map.p'), q: mkItem('map.q') },
     fn: function dataFn() { return ['r0', 'r1'] },
     prims: [leaf('prims[0]'), leaf('prims[1]')],
+    // selected by `sel` / `tk`, which the update phase switches
+    lists: { a: [mkItem('lists.a[0]'), mkItem('lists.a[1]')], b: [mkItem('lists.b[0]'), mkItem('lists.b[1]')] },
+    sel: 'a', tk: 'a',
   }
 }
 
-const MODULE_CODE = (tag) => `function ${tag}_f(){return "${tag}.f"}; function ${tag}_g(){return "${tag}.g"}; module.exports = { f: ${tag}_f, o: { g: ${tag}_g, list: [{ h: function ${tag}_h0(){} }, { h: function ${tag}_h1(){} }] }, s: "${tag}.s" }`
+const STEPS = [{ sel: 'b', tk: 'c', t: false, f: true }, { sel: 'a', tk: 'b', kx: 'y', ky: 'x' }, { tk: 'a', t: true, f: false, i0: 1, i1: 0 }, { 'keys.l': ['x', 'y'], sel: 'b', t: false, f: true }]
+const lastPhase = 'after update ' + (STEPS.length - 1)
+
+const MODULE_CODE = (tag) => `function ${tag}_f(){return "${tag}.f"}; function ${tag}_g(){return "${tag}.g"}; module.exports = { f: ${tag}_f, tab: { a: ${tag}_f, b: ${tag}_f, c: ${tag}_g }, o: { g: ${tag}_g, list: [{ h: function ${tag}_h0(){} }, { h: function ${tag}_h1(){} }] }, s: "${tag}.s" }`
 
 // ---- expression generators: an access chain and how assignable it is
 function genChain(rng, root, maxLen) {
@@ -86,7 +92,7 @@ function genBound(rng, roots, modRoots) {
   const root = rng.pick(roots)
   if (r < 8) return genChain(rng, root, 3)
   if (r < 10 && modRoots.length) return genChain(rng, rng.pick(modRoots), 0).t && X.mem(X.id(rng.pick(modRoots)), rng.pick(['f', 's']))
-  if (r < 11 && modRoots.length) return X.mem(X.mem(X.id(rng.pick(modRoots)), 'o'), 'g')
+  if (r < 11 && modRoots.length) return rng.bool(0.5) ? X.mem(X.mem(X.id(rng.pick(modRoots)), 'o'), 'g') : X.idx(X.mem(X.id(rng.pick(modRoots)), 'tab'), X.id('tk'))
   if (r < 13) return X.cond(X.id(rng.pick(['t', 'f'])), genChain(rng, root, 2), genChain(rng, rng.pick(roots), 2))
   if (r < 14) return X.mem(X.cond(X.id(rng.pick(['t', 'f'])), X.id(root), X.id(rng.pick(roots))), rng.pick(['x', 'y']))
   if (r < 15) return X.cond(X.id(rng.pick(['t', 'f'])), genChain(rng, root, 1), genNonPath(rng, X.id(root)))
@@ -101,6 +107,8 @@ function probe(rng, roots, modRoots, id_) {
   if (fam === 'plain-event') return { t: 'el', tag: 'p', attrs: [{ fam: 'plain', name: 'bind' + name, value: M.ev(e) }], children: [], probe: { fam, e, key: 'bind' + name } }
   if (fam === 'plain') return { t: 'el', tag: 'p', attrs: [{ fam: 'plain', name, value: M.ev(e) }], children: [], probe: { fam, e, key: name } }
   if (fam === 'change') return { t: 'el', tag: 'p', attrs: [{ fam: 'change', name, value: M.ev(e) }], children: [], probe: { fam, e, key: name } }
+  // a model: binding on a real component (`<x-a>` declares the any-typed property `value`): the component can report a change back
+  if (fam === 'model' && rng.bool(0.4)) return { t: 'el', tag: 'x-a', attrs: [{ fam: 'model', name: 'value', value: M.ev(e) }], children: [], probe: { fam, e, key: 'value', component: true } }
   if (fam === 'model') return { t: 'el', tag: 'p', attrs: [{ fam: 'model', name, value: M.ev(e) }], children: [], probe: { fam, e, key: name } }
   return { t: 'el', tag: 'p', attrs: [{ fam, name, value: M.ev(e) }], children: [], probe: { fam, e, key: name } }
 }
@@ -114,7 +122,8 @@ function genBody(rng, depth, roots, modRoots) {
       const r = rng.int(modRoots.length ? 12 : 10)
       const itemRoots = roots.filter((x) => x === 'item' || x === 'it' || x === 'row')
       let listE
-      if (r < 4) listE = X.id('list')
+      if (r < 3) listE = X.id('list')
+      else if (r < 4) listE = X.idx(X.id('lists'), X.id('sel'))
       else if (r < 5) listE = X.id('map')
       else if (r < 7 && itemRoots.length) listE = X.mem(X.id(rng.pick(itemRoots)), 'sub')
       else if (r < 8 && modRoots.length) listE = X.mem(X.mem(X.id(modRoots[0]), 'o'), 'list')
@@ -176,7 +185,7 @@ export function judge(ctx, c, res) {
   const bad = allDiags(res).filter((d) => d.level >= LEVEL.Warn)
   if (bad.length) { viol(`documented syntax produced diagnostic "${bad[0].kind}"`, { diags: bad }); return }
   const D = mkData()
-  const { comp, tr, error } = instantiate(ge, res.groups, c.fs.main, D, {})
+  const { comp, tr, error } = instantiate(ge, res.groups, c.fs.main, D, { propComponents: true })
   report.evals()
   if (error) { viol(`generated code threw: ${String(error.message || error).slice(0, 200)}`, { error: String(error.stack || error).slice(0, 800) }); return }
   const renderer = new Renderer({ files: c.fs.files, scripts: c.fs.scripts })
@@ -190,11 +199,17 @@ export function judge(ctx, c, res) {
     }
     return { ok: false, why: 'unknown prefix ' + p[0] }
   }
+  const fileScopes = renderer.fileScopes(c.fs.main)
+  const writeBacks = []
+  const judgeState = (phase) => {
   // walk the abstract template with the reference environment and consume the element probes in document order
   const probes = []
   const elems = []
-  for (const [node, info] of tr.info) if (info.tag === 'p') elems.push(node)
-  const fileScopes = renderer.fileScopes(c.fs.main)
+  if (phase === 'creation') { for (const [node, info] of tr.info) if (info.tag === 'p' || info.tag === 'x-a') elems.push(node) } else {
+    // after updates nodes may have been re-created: document order is read from the live tree
+    const visit = (node) => { if (node.childNodes === undefined) return; if (node.is === 'p' || node.is === 'cmp/x-a') elems.push(node); node.childNodes.forEach(visit) }
+    comp.getShadowRoot().childNodes.forEach(visit)
+  }
   const walk = (nodes, env) => {
     for (const n of nodes) {
       if (n.probe) probes.push({ n, env })
@@ -217,9 +232,10 @@ export function judge(ctx, c, res) {
   let ii = 0
   let pi = 0
   for (const p of probes) {
+    if (p.forList && phase !== 'creation') continue // the list paths are judged on the creation log
     if (p.forList) {
       const ev = fEvents[fi++]
-      if (!ev) { viol('fewer F calls than wx:for nodes', {}); return }
+      if (!ev) { viol('fewer F calls than wx:for nodes', {}); return false }
       const expectPath = p.cl && (p.cl.root === 'data' || p.cl.root === 'module')
       const got = ev.lvaluePath
       report.cell('for_list', expectPath ? 'assignable' : 'not-assignable', got ? 'path' : 'none')
@@ -233,7 +249,7 @@ export function judge(ctx, c, res) {
       const n = Array.isArray(p.list) ? p.list.length : p.list && typeof p.list === 'object' ? Object.keys(p.list).length : typeof p.list === 'number' ? p.list : 0
       for (let k = 0; k < n; k++) {
         const ie = itemEvents[ii++]
-        if (!ie) { viol('fewer item callbacks than list items', {}); return }
+        if (!ie) { viol('fewer item callbacks than list items', {}); return false }
         if (ie.itemLvaluePath) {
           const r = resolveGeneral(ie.itemLvaluePath)
           const okv = r.ok && (r.kind === 'script' ? sameModuleValue(r.value, ie.item) : r.value === ie.item)
@@ -243,7 +259,7 @@ export function judge(ctx, c, res) {
       continue
     }
     const node = elems[pi++]
-    if (!node) { viol('fewer probe elements created than the template denotes', {}); return }
+    if (!node) { viol(`fewer probe elements in the tree than the template denotes (${phase})`, {}); return false }
     const ch = tr.chan.get(node) || { r: {}, v: {}, p: {} }
     const { fam, e, key } = p.n.probe
     const cl = (() => { try { return classify(e, p.env) } catch { return null } })()
@@ -264,7 +280,22 @@ export function judge(ctx, c, res) {
         else report.shape('model|' + X.shape(e))
       } else if (!cl || cl.root !== 'data') report.shape('model-none|' + X.shape(e))
       else report.count('assignable_without_path')
+      if (p.n.probe.component && phase === lastPhase) writeBacks.push({ node, e, cl, modelPath, key, pi })
     } else {
+      // what the attached listener really hands over when the event fires (the runtime may keep an older listener)
+      if (['bind', 'catch'].includes(fam) && typeof delivered === 'function') {
+        const fired = []
+        const pgw = comp._$tmplInst && comp._$tmplInst.procGenWrapper
+        if (pgw) {
+          const prevWrapper = pgw.eventListenerWrapper
+          pgw.eventListenerWrapper = (caller, ev, f, path) => { fired.push({ f, path }) }
+          try { node.triggerEvent(key, {}, {}) } catch (e) { /* listeners of the probe do not run user code */ } finally { pgw.eventListenerWrapper = prevWrapper }
+          report.count('events_fired')
+          if (fired.length !== 1) viol(`firing ${fam}:${key} reached ${fired.length} listener(s) (${phase})`, { expr: X.printFull(e) })
+          else if (!(isModule ? sameModuleValue(fired[0].f, delivered) : fired[0].f === delivered)) viol(`the listener attached for ${fam}:${key}="{{${X.printFull(e)}}}" calls another handler than the one last delivered (${phase})`, { expr: X.printFull(e) })
+          else if (JSON.stringify(fired[0].path ?? null) !== JSON.stringify(generalPath ?? null)) viol(`the listener attached for ${fam}:${key}="{{${X.printFull(e)}}}" hands over the l-value path ${JSON.stringify(fired[0].path ?? null)}, the path last delivered is ${JSON.stringify(generalPath ?? null)} (${phase})`, { expr: X.printFull(e) })
+        }
+      }
       tagCell('general', generalPath ? 'path' : 'none')
       if (generalPath) {
         const r = resolveGeneral(generalPath)
@@ -274,6 +305,45 @@ export function judge(ctx, c, res) {
         else report.shape(fam + '|' + X.shape(e))
       } else if (!cl) report.shape(fam + '-none|' + X.shape(e))
     }
+  }
+  return true
+  } // judgeState
+  const before = report.violations ? report.violations.length : 0
+  if (!judgeState('creation')) return
+  // update phase: the selectors of conditionals, dynamic keys and lists change; the paths handed over by the update
+  // passes must address what the expressions read *now* (the data object is shared with the component: D is current)
+  const steps = STEPS
+  for (let k = 0; k < steps.length; k++) {
+    if (report.violations && report.violations.length > before) return
+    try { withWarnings(ge, tr, () => comp.setData(steps[k])) } catch (e) { viol(`update step ${k} threw: ${String(e.message || e).slice(0, 200)}`, { step: steps[k] }); return }
+    if (comp.data !== D) { for (const key of Object.keys(comp.data)) D[key] = comp.data[key] }
+    report.count('update_steps')
+    if (!judgeState('after update ' + k)) return
+  }
+  if (report.violations && report.violations.length > before) return
+  // get-put through the runtime itself (after everything else has been judged): the component reports a new value of
+  // its property; the host data must change exactly at the location the expression reads now, and nowhere at all
+  // when the expression is not assignable now
+  const fingerprint = (skip) => X.show(Object.fromEntries(Object.entries(comp.data).filter(([k]) => k !== skip)), 0)
+  const deepCopy = (v) => (Array.isArray(v) ? v.map(deepCopy) : v && typeof v === 'object' ? Object.fromEntries(Object.entries(v).map(([k, x]) => [k, deepCopy(x)])) : v)
+  for (const { node, e, cl, modelPath, key, pi } of writeBacks) {
+    const SENT = { writeBack: key + ':' + pi }
+    const assignable = !!(cl && cl.root === 'data' && modelPath)
+    // a write may create missing intermediate objects below its root field: everything outside that field must stay as it is
+    const rootField = assignable ? cl.path[0] : undefined
+    const was = fingerprint(rootField)
+    const savedRoot = assignable ? deepCopy(comp.data[rootField]) : undefined
+    try { withWarnings(ge, tr, () => node.setData({ value: SENT })) } catch (err) { viol(`reporting a change from the component threw: ${String(err.message || err).slice(0, 160)}`, { expr: X.printFull(e) }); return }
+    report.count('write_backs')
+    if (assignable) {
+      if (getPath(comp.data, cl.path) !== SENT) { viol(`model:value="{{${X.printFull(e)}}}": the value reported by the component did not arrive at ${JSON.stringify(cl.path)}`, { expr: X.printFull(e), modelPath }); return }
+      if (fingerprint(rootField) !== was) { viol(`model:value="{{${X.printFull(e)}}}": reporting a change altered the host data outside ${JSON.stringify(cl.path)}`, { expr: X.printFull(e) }); return }
+      report.shape('write-back|' + X.shape(e))
+      try { withWarnings(ge, tr, () => comp.setData({ [rootField]: savedRoot })) } catch (err) { return }
+    } else if (fingerprint(undefined) !== was) {
+      viol(`model:value="{{${X.printFull(e)}}}" is not assignable now, but a change reported by the component was written into the host data`, { expr: X.printFull(e), modelPath: modelPath ?? null })
+      return
+    } else report.shape('write-back-none|' + X.shape(e))
   }
 }
 
